@@ -56,6 +56,17 @@ func runC03(t *testing.T, seed uint64, m *Mask) *Report {
 	vetoStages := []string{"PostReadCallHeader", "PreReadCallBody", "PostReadCallBody", "PreWriteReply", "PostReadPushHeader", "PreReadPushBody", "PostReadPushBody"}
 	var frames []*c03Frame
 	ops := map[string]*world.Op{}
+	// context-age phase: some sessions start with a CALL/PUSH context age (replies then carry a deadline and arm
+	// the connection's write deadline); after a few frames the age is set back to 0, the fake clock moves past
+	// every deadline armed so far, and the remaining frames must still be answered
+	ageOf := make([]time.Duration, nSess)
+	ageFrames := make([]int, nSess)
+	for s := 0; s < nSess; s++ {
+		if r.Chance(0.35) {
+			ageOf[s] = time.Duration(20+r.Intn(60)) * time.Millisecond
+			ageFrames[s] = 1 + r.Intn(3)
+		}
+	}
 	for s := 0; s < nSess; s++ {
 		n := 1 + r.Intn(7)
 		for j := 0; j < n; j++ {
@@ -113,7 +124,11 @@ func runC03(t *testing.T, seed uint64, m *Mask) *Report {
 		}
 	}
 	rep := &Report{NOps: len(frames)}
-	rep.Cell = fmt.Sprintf("%s,unknownCall=%v,unknownPush=%v,limit=%d", proto, unknownCall, unknownPush, opt.Limit)
+	anyAge := false
+	for _, a := range ageOf {
+		anyAge = anyAge || a > 0
+	}
+	rep.Cell = fmt.Sprintf("%s,unknownCall=%v,unknownPush=%v,limit=%d,agephase=%v", proto, unknownCall, unknownPush, opt.Limit, anyAge)
 
 	out := world.Run(t, opt, func(e *world.Env) {
 		e.AllowUnknownArgs = true
@@ -176,6 +191,10 @@ func runC03(t *testing.T, seed uint64, m *Mask) *Report {
 				return
 			}
 			x.key = world.SessKey(x.sess)
+			age, ageN := ageOf[s], ageFrames[s]
+			if age > 0 {
+				x.sess.(interface{ SetContextAge(time.Duration) }).SetContextAge(age)
+			}
 			simrt.GoNamed(fmt.Sprintf("rawreader%d", s), func() {
 				for {
 					var msg world.RawMsg
@@ -205,8 +224,15 @@ func runC03(t *testing.T, seed uint64, m *Mask) *Report {
 			writers++
 			simrt.GoNamed(fmt.Sprintf("rawwriter%d", s), func() {
 				defer func() { writers-- }()
-				for _, f := range mine {
+				for fi, f := range mine {
 					simrt.YieldN(e.Gen.Intn(4))
+					if age > 0 && fi == ageN {
+						// let the frames sent so far be answered, then end the phase and let every armed deadline pass
+						simrt.Sleep(age / 2)
+						x.sess.(interface{ SetContextAge(time.Duration) }).SetContextAge(0)
+						simrt.Sleep(age + time.Duration(e.Gen.Intn(20))*time.Millisecond)
+						e.Probe("c03-frames-after-context-age-phase")
+					}
 					method := ""
 					switch f.route {
 					case "echo":
